@@ -507,6 +507,16 @@ impl<F: Fn() -> u64 + Send + Sync + Clone + 'static> Gen for JitterGen<F> {
     }
 }
 
+/// like `jitter_gen`, but the timer panics once (payload `TimerFault`) at reading `fault_at`
+pub fn jitter_gen_faulty(script: Script, rounds: Option<u8>, budget: usize, fault_at: usize) -> Box<dyn Gen> {
+    let timer = ScriptTimer::with_fault(script, budget, fault_at);
+    let mut rng = JitterRng::new_with_timer(timer.closure());
+    if let Some(r) = rounds {
+        rng.set_rounds(r);
+    }
+    Box::new(JitterGen { rng, timer })
+}
+
 /// `JitterRng::new_with_timer` over a scripted timer; `rounds` = None keeps the default (64).
 pub fn jitter_gen(script: Script, rounds: Option<u8>, budget: usize) -> Box<dyn Gen> {
     let timer = ScriptTimer::new(script, budget);
